@@ -3997,3 +3997,391 @@ def r16_22(ctx, rule):
                  '`%s` tests what the external tool printed: with --color-words git prints context lines without a prefix, so three lines of cell text reading '
                  '"\\\\ No newline at end of file" (a stream output holding a git diff) make the count exceed 2 and the renderer dies with AssertionError' % repo.norm(bad[0])[:80],
                  bad[0] if bad else fn)
+
+
+def _r_scalar_truth_table(ctx, rule):
+    from .. import scalareq
+    repo, cg = ctx.repo, ctx.cg
+    fid = 'nbdime.diffing.generic:compare_strict'
+    fn = repo.func(fid)
+    try:
+        tab = scalareq.truth_table(repo, cg, fn)
+    except AnalysisError as e:
+        ctx.inst(rule, fid, 'not evaluated: %s' % str(e)[:100], True, 'the shape rules (R02.1, R02.22, R02.23) still apply', fn, nontrivial=False)
+        return
+    wrong = [(a, b, g, w) for a, b, g, w in tab if g != w]
+    by_kind = {}
+    for a, b, g, w in wrong:
+        by_kind.setdefault('equal' if g else 'different', []).append('%s~%s' % (a, b))
+    ctx.inst(rule, fid, '%d ordered pairs of JSON scalars evaluated, %d wrong' % (len(tab), len(wrong)), not wrong,
+             'two scalars compare equal exactly when they are written the same way' if not wrong else
+             'the predicate answers wrongly for: %s -- a change between values it calls equal gives an empty diff; values it calls different although they are the same make '
+             'a document differ from itself' % '; '.join('%s: %s' % (k, ', '.join(v[:6])) for k, v in sorted(by_kind.items())), fn)
+
+
+@extra('C02', 'R02.24', 'truth table of the type-strict scalar equality over all pairs of {null, false, true, 0, 1, 0.0, -0.0, 1.0, NaN, NaN\', "", "s"}: equal iff same JSON text', 1)
+def r02_24(ctx, rule):
+    _r_scalar_truth_table(ctx, rule)
+
+
+@extra('C05', 'R05.15', 'truth table of the type-strict scalar equality (C02 R02.24)', 1)
+def r05_15(ctx, rule):
+    _r_scalar_truth_table(ctx, rule)
+
+
+# ------------------------------------------------------------------------------------------------ round 7
+@extra('C02', 'R02.25', 'the deep type-strict equality recurses with ITSELF in every container branch (mapping values and sequence items): the shallow predicate is plain == on '
+       'containers, so handing items to it loses type changes one level further down', 2)
+def r02_25(ctx, rule):
+    repo, cg = ctx.repo, ctx.cg
+    fid = 'nbdime.diffing.generic:strict_equal'
+    fn = repo.func(fid)
+    branches = [n for n in fn.body if isinstance(n, ast.If)]
+    if len(branches) < 2:
+        raise AnalysisError('strict_equal: container branches not found')
+    for b in branches:
+        kinds = sorted({dotted(x) for c in ast.walk(b.test) if isinstance(c, ast.Call) and dotted(c.func) == 'isinstance' and len(c.args) == 2 for x in ast.walk(c.args[1])
+                        if isinstance(x, ast.Name)})
+        rec = any(isinstance(c, ast.Call) and isinstance(c.func, ast.Name) and c.func.id == fn.name for st in b.body for c in ast.walk(st))
+        other = [dotted(x) for st in b.body for x in ast.walk(st) if isinstance(x, ast.Name) and x.id == 'compare_strict']
+        ok = rec and not other
+        ctx.inst(rule, fid, 'branch for %s: %s' % (kinds, 'recurses' if rec else 'does not recurse'), ok,
+                 'items/values are compared with the deep equality' if ok else
+                 'the items of this container are compared with %s: for items that are containers themselves that is plain == (1 == True == 1.0), and unlike in the list differ '
+                 'nothing recurses afterwards -- the answer is final' % (other[0] if other else 'something other than strict_equal'), b)
+
+
+@extra('C03', 'R03.30', 'in the list merger every decision built from chunk-level diffs is registered on the path of the LIST (a list diff applied to an item aborts: '
+       '"dict key must be string")', 10)
+def r03_30(ctx, rule):
+    from .c03 import chunk_switch_model
+    repo, cg = ctx.repo, ctx.cg
+    m = chunk_switch_model(repo, cg)
+    fn = m['ml']
+    fid = 'nbdime.merging.generic:_merge_lists'
+    pathp = next((a.arg for a in fn.args.args if a.arg == 'path'), None)
+    if pathp is None:
+        raise AnalysisError('_merge_lists: no path parameter')
+    chunk_names = set()
+    for v in m['unpack'].values():
+        chunk_names |= set(v)
+    chunk_names |= {m['d_local'], m['d_remote']}
+    # names bound from the chunk diffs in the loop prelude (a0, p0, ...)
+    for st in m['pre']:
+        if isinstance(st, ast.Assign) and isinstance(st.targets[0], ast.Name) and any(isinstance(x, ast.Name) and x.id in (m['d_local'], m['d_remote']) for x in ast.walk(st.value)):
+            chunk_names.add(st.targets[0].id)
+    # names re-bound inside the switch stand for something else there (the string-line workaround builds new p0/p1)
+    from ..util import if_chain as _ifc
+    arm_of = {}
+    for test_, body_, node_ in _ifc(m['bigif'])[0]:
+        reb = {t.id for st in body_ for x in ast.walk(st) if isinstance(x, ast.Assign) for t in x.targets if isinstance(t, ast.Name)}
+        for st in body_:
+            for x in ast.walk(st):
+                arm_of[id(x)] = reb
+    n = 0
+    for c in calls_in(m['bigif']):
+        if not (isinstance(c.func, ast.Attribute) and c.func.attr in ('onesided', 'agreement', 'conflict', 'local', 'remote', 'base', 'local_then_remote', 'remote_then_local', 'tryresolve')):
+            continue
+        if len(c.args) < 3:
+            continue
+        diffs = [a for a in c.args[1:3] if isinstance(a, ast.Name) and a.id in chunk_names and a.id not in arm_of.get(id(c), set())]
+        if len(diffs) < 2:
+            continue
+        n += 1
+        ok = dotted(c.args[0]) == pathp
+        ctx.inst(rule, fid, repo.norm(c), ok, 'registered on the list\'s path' if ok else
+                 'the chunk\'s list-level diffs are registered on `%s`, not on the path of the list: apply_decisions then patches the ITEM with a list diff (an output dict with an '
+                 'integer key: AssertionError "dict key must be string"; a source line: the edit lands on the wrong object)' % ast.unparse(c.args[0]), c)
+    if n < 10:
+        raise AnalysisError('_merge_lists: fewer than 10 decision registrations with chunk diffs')
+
+
+@extra('C04', 'R04.13', 'the merge code removes no field the notebook schema REQUIRES from a cell or output it puts into the merged notebook (execution_count of an execute_result, '
+       'outputs / execution_count of a code cell, output_type, cell_type, source, metadata)', 1)
+def r04_13(ctx, rule):
+    repo = ctx.repo
+    REQUIRED = {'execution_count', 'output_type', 'outputs', 'cell_type', 'source', 'metadata', 'data', 'name', 'text', 'ename', 'evalue', 'traceback'}
+    n_fn = 0
+    bad = []
+    for fid, fn in sorted(repo.functions.items()):
+        if not fid.startswith(('nbdime.merging.strategies:', 'nbdime.merging.decisions:', 'nbdime.merging.notebooks:')):
+            continue
+        n_fn += 1
+        for x in walk_no_nested(fn):
+            if isinstance(x, ast.Delete):
+                for t in x.targets:
+                    if isinstance(t, ast.Subscript) and const_val(t.slice) in REQUIRED:
+                        bad.append((fid, x, const_val(t.slice)))
+            if isinstance(x, ast.Call) and isinstance(x.func, ast.Attribute) and x.func.attr == 'pop' and x.args and const_val(x.args[0]) in REQUIRED:
+                bad.append((fid, x, const_val(x.args[0])))
+    if n_fn < 30:
+        raise AnalysisError('R04.13: fewer than 30 merge functions examined')
+    if not bad:
+        ctx.inst(rule, 'nbdime.merging', '%d functions: no removal of a schema-required field' % n_fn, True, 'cells and outputs keep their required fields', None)
+    for fid, x, k in bad:
+        ctx.inst(rule, fid, repo.norm(x), False,
+                 '%r is removed from an object that goes into the merged notebook: the schema requires it (an execute_result without execution_count does not validate; '
+                 'nbformat only logs that and writes the file)' % k, x)
+
+
+@extra('C07', 'R07.17', 'the external three-way merge tool\'s output is read as BYTES and decoded by nbdime: text-mode pipes (encoding= / text= / universal_newlines=) turn every bare '
+       '\\\\r into \\\\n, which splits a source line in two lines that exist in no input', 2)
+def r07_17(ctx, rule):
+    repo, cg = ctx.repo, ctx.cg
+    for name in ('external_merge_render', 'external_diff_render'):
+        fid = 'nbdime.prettyprint:' + name
+        fn = repo.func(fid)
+        pops = [c for c in calls_in(fn, nested=False) if (dotted(c.func) or '').split('.')[-1] in ('Popen', 'run', 'check_output')]
+        if not pops:
+            raise AnalysisError('%s: no subprocess call found' % fid)
+        for c in pops:
+            textkw = [k.arg for k in c.keywords if k.arg in ('encoding', 'errors', 'text', 'universal_newlines') and not (isinstance(k.value, ast.Constant) and k.value.value in (None, False))]
+            ctx.inst(rule, fid, repo.norm(c)[:80], not textkw, 'binary pipe' if not textkw else
+                     'the pipe is opened in text mode (%s): Python\'s universal newlines translate a bare carriage return inside a line (a progress string, classic-Mac text) into a '
+                     'line break' % ', '.join(textkw), c)
+
+
+@extra('C09', 'R09.18', 'the notebooks handed to decide_notebook_merge are diffed as they are: base, local and remote are not rebound (replaced by adjusted copies) before the two '
+       'diffs are taken -- a side\'s diff must describe what that side did', 1)
+def r09_18(ctx, rule):
+    repo, cg = ctx.repo, ctx.cg
+    fid = 'nbdime.merging.notebooks:decide_notebook_merge'
+    fn = repo.func(fid)
+    ps = [a.arg for a in fn.args.args[:3]]
+    diffs = [c for c in calls_in(fn, nested=False) if any(t[0] == 'func' and t[1].endswith(':diff_notebooks') for t in cg.resolve(c.func, fn))]
+    if len(diffs) < 2:
+        raise AnalysisError('decide_notebook_merge: the two diff_notebooks calls were not found')
+    rebinds = [x for x in walk_no_nested(fn) if isinstance(x, (ast.Assign, ast.AugAssign, ast.AnnAssign)) and
+               any(isinstance(t, ast.Name) and t.id in ps for tt in (x.targets if isinstance(x, ast.Assign) else [x.target]) for t in ast.walk(tt) if isinstance(t, ast.Name) and isinstance(t.ctx, ast.Store))]
+    direct = all(all(isinstance(a, ast.Name) and a.id in ps for a in c.args[:2]) for c in diffs)
+    ok = not rebinds and direct
+    ctx.inst(rule, fid, '%d rebinding(s) of %s; diff arguments %s' % (len(rebinds), ps, [ast.unparse(a) for c in diffs for a in c.args[:2]]), ok,
+             'the inputs are diffed as given' if ok else
+             '%s: the diff of that side is taken from an adjusted copy, so the decisions attribute to the side a change it did not make (all-local / all-remote no longer '
+             'reproduce the sides)' % (repo.norm(rebinds[0]) if rebinds else 'a diff argument is not a parameter'), rebinds[0] if rebinds else diffs[0])
+
+
+@extra('C10', 'R10.11', 'a conflict the builder could not resolve is registered WITHOUT a strategy tag: the level-wise resolvers skip decisions that carry one ("already applied"), so a '
+       'tagged open conflict survives use-base / use-local / use-remote at every level', 2)
+def r10_11(ctx, rule):
+    repo = ctx.repo
+    for meth in ('conflict', 'similar_insert'):
+        fid = 'nbdime.merging.decisions:MergeDecisionBuilder.' + meth
+        fn = repo.func(fid)
+        adds = [c for c in calls_in(fn, nested=False) if isinstance(c.func, ast.Attribute) and c.func.attr == 'add_decision' and
+                any(k.arg == 'conflict' and isinstance(k.value, ast.Constant) and k.value.value is True for k in c.keywords)]
+        if not adds:
+            raise AnalysisError('%s: the add_decision(conflict=True) call was not found' % fid)
+        for c in adds:
+            tag = [k for k in c.keywords if k.arg == 'strategy' and not (isinstance(k.value, ast.Constant) and k.value.value is None)]
+            ctx.inst(rule, fid, repo.norm(c)[:90], not tag, 'no strategy tag on the open conflict' if not tag else
+                     'the unresolved conflict keeps strategy=%s: resolve_strategy_generic only resolves conflicts `not d.get("strategy")`, so this one is skipped by every use-* '
+                     'level including the root' % ast.unparse(tag[0].value), c)
+
+
+@extra('C12', 'R12.16', 'reset_notebook_differ restores EVERY module-level table the ignore configuration writes: whatever set_notebook_diff_targets / set_notebook_diff_ignores '
+       'store into is cleared by the reset', 1)
+def r12_16(ctx, rule):
+    repo = ctx.repo
+    NB_ = 'nbdime.diffing.notebooks'
+    m = repo.mod(NB_)
+
+    def written(fn):
+        out = set()
+        for x in walk_no_nested(fn):
+            tg = []
+            if isinstance(x, ast.Assign):
+                tg = x.targets
+            elif isinstance(x, (ast.AugAssign, ast.AnnAssign)):
+                tg = [x.target]
+            elif isinstance(x, ast.Delete):
+                tg = x.targets
+            for t in tg:
+                if isinstance(t, ast.Subscript) and isinstance(t.value, ast.Name) and t.value.id in m.assigns:
+                    out.add(t.value.id)
+            if isinstance(x, ast.Call) and isinstance(x.func, ast.Attribute) and isinstance(x.func.value, ast.Name) and x.func.value.id in m.assigns and \
+                    x.func.attr in ('pop', 'update', 'clear', 'setdefault', 'append', 'extend', 'add', 'discard', 'remove', 'insert'):
+                out.add(x.func.value.id)
+            if isinstance(x, ast.Global):
+                out |= set(x.names)
+        return out
+    w = set()
+    for name in ('set_notebook_diff_targets', 'set_notebook_diff_ignores'):
+        w |= written(repo.func('%s:%s' % (NB_, name)))
+    r = written(repo.func(NB_ + ':reset_notebook_differ'))
+    if not w:
+        raise AnalysisError('R12.16: the ignore configuration writes no module-level table')
+    missing = sorted(w - r)
+    ctx.inst(rule, NB_ + ':reset_notebook_differ', 'configuration writes %s, reset restores %s' % (sorted(w), sorted(r)), not missing,
+             'everything the configuration touches is reset' if not missing else
+             'the ignore configuration also writes %s, which the reset leaves as it is: after ignore-then-reset the process keeps diffing with the leftover (cells no longer '
+             'aligned by id, a record of earlier ignores, ...)' % missing, repo.func(NB_ + ':reset_notebook_differ'))
+
+
+@extra('C16', 'R16.23', 'a tool whose output is read through a pipe is not WAITED for before the pipe is drained (communicate() does both): with more than a pipe buffer of output '
+       'the tool blocks, the wait never returns (or times out) and the renderer fails', 2)
+def r16_23(ctx, rule):
+    repo = ctx.repo
+    for name in ('external_merge_render', 'external_diff_render'):
+        fid = 'nbdime.prettyprint:' + name
+        fn = repo.func(fid)
+        waits = [c for c in calls_in(fn, nested=False) if isinstance(c.func, ast.Attribute) and c.func.attr in ('wait', 'poll')]
+        comm = [c for c in calls_in(fn, nested=False) if isinstance(c.func, ast.Attribute) and c.func.attr == 'communicate']
+        ok = not waits and bool(comm)
+        ctx.inst(rule, fid, 'communicate: %d, wait/poll: %d' % (len(comm), len(waits)), ok, 'output is drained while waiting' if ok else
+                 '%s: nobody reads the pipe while the tool is waited for; a rendered diff of more than 64 KiB (a long cell) blocks the tool and the renderer raises after the timeout' % (
+                     repo.norm(waits[0]) if waits else 'no communicate()'), waits[0] if waits else fn)
+
+
+@extra('C17', 'R17.18', 'the clean-filter command is the EFFECTIVE value git itself uses: looked up with `git config --get` (last value wins), not --get-all / --get-regexp with the first '
+       'entry taken', 1)
+def r17_18(ctx, rule):
+    repo = ctx.repo
+    fid = 'nbdime.vcs.git.filter_integration:get_clean_filter_cmd'
+    fn = repo.func(fid)
+    lists = [x for x in ast.walk(fn) if isinstance(x, ast.List) and any(const_val(e) == 'config' for e in x.elts)]
+    if not lists:
+        raise AnalysisError('get_clean_filter_cmd: git config argument vector not found')
+    for l in lists:
+        flags = [const_val(e) for e in l.elts if isinstance(const_val(e), str) and const_val(e).startswith('--')]
+        ok = '--get' in flags and not ({'--get-all', '--get-regexp'} & set(flags))
+        ctx.inst(rule, fid, 'git config %s' % flags, ok, 'effective value' if ok else
+                 'with %s every definition of filter.<name>.clean is printed, least specific first; the code takes the first one, git uses the last -- the working-tree side is '
+                 'filtered with another command than git applies' % sorted({'--get-all', '--get-regexp'} & set(flags) or flags), l)
+
+
+@extra('C18', 'R18.14', 'the attributes file for --global is located from the GLOBAL configuration: the core.attributesfile lookup names its scope, so a repository\'s own setting '
+       '(the directory the command happens to run in) cannot redirect it', 1)
+def r18_14(ctx, rule):
+    repo = ctx.repo
+    fid = 'nbdime.utils:locate_gitattributes'
+    fn = repo.func(fid)
+    lists = [x for x in ast.walk(fn) if isinstance(x, ast.List) and any(const_val(e) == 'core.attributesfile' for e in x.elts)]
+    if not lists:
+        raise AnalysisError('locate_gitattributes: the core.attributesfile lookup was not found')
+    for l in lists:
+        flags = [const_val(e) for e in l.elts if isinstance(const_val(e), str) and const_val(e).startswith('--')]
+        ok = '--global' in flags
+        ctx.inst(rule, fid, 'git config %s core.attributesfile' % flags, ok, 'global scope' if ok else
+                 'without --global the lookup returns the EFFECTIVE value, which a repository\'s local config overrides: `config-git --enable --global` run inside such a repository '
+                 'appends nbdime\'s lines to that repository\'s private file and never writes the global one', l)
+
+
+@extra('C20', 'R20.17', 'the store endpoint REPLACES the output file: it is opened with a truncating mode (open(path, "w"...) or os.open with O_TRUNC); without truncation a shorter '
+       'notebook leaves the tail of the old file behind it', 1)
+def r20_17(ctx, rule):
+    repo = ctx.repo
+    fid = 'nbdime.webapp.nbdimeserver:ApiMergeStoreHandler.post'
+    fn = repo.func(fid)
+    n = 0
+    for c in calls_in(fn, nested=False):
+        d = dotted(c.func) or ''
+        if d in ('open', 'io.open', 'codecs.open') and c.args and not (isinstance(c.args[0], ast.Name) and c.args[0].id == 'fd'):
+            mode = const_val(c.args[1]) if len(c.args) > 1 else next((const_val(k.value) for k in c.keywords if k.arg == 'mode'), 'r')
+            if isinstance(mode, str) and any(ch in mode for ch in 'wax+'):
+                n += 1
+                ok = 'w' in mode and '+' not in mode.replace('w+', 'w')
+                ctx.inst(rule, fid, repo.norm(c), 'w' in mode, 'truncating mode' if 'w' in mode else 'mode %r does not truncate' % mode, c)
+        if d == 'os.open':
+            n += 1
+            flags = {x.attr for x in ast.walk(c.args[1]) if isinstance(x, ast.Attribute)} if len(c.args) > 1 else set()
+            ok = 'O_TRUNC' in flags
+            ctx.inst(rule, fid, repo.norm(c), ok, 'O_TRUNC given' if ok else
+                     'os.open without O_TRUNC: when the file exists and is longer than the stored notebook the answer is 200 but the file holds the new notebook followed by the old '
+                     'tail -- not JSON', c)
+    if n == 0:
+        raise AnalysisError('store endpoint: no open of the output file found')
+
+
+@extra('C12', 'R12.17', 'a context manager that changes process-wide state undoes the change in a `finally`: an exception passing through the block (a malformed notebook, an '
+       'interrupt) must not leave the differ table / the working directory / a flag altered for the rest of the process', 1)
+def r12_17(ctx, rule):
+    repo = ctx.repo
+    n = 0
+    for fid, fn in sorted(repo.functions.items()):
+        if not any((dotted(d) or '').endswith('contextmanager') for d in fn.decorator_list):
+            continue
+        if fid.startswith('nbdime.profiling:'):
+            continue        # named exemption: timing helpers of the developers' profiler, on no diff / merge / render path
+        n += 1
+        ys = [x for x in walk_no_nested(fn) if isinstance(x, ast.Expr) and isinstance(x.value, (ast.Yield, ast.YieldFrom))]
+        bad = None
+        for y in ys:
+            # statements after the yield in its block, with the yield not inside a try that has a finally
+            par = repo.parent(y)
+            in_try = False
+            p_ = par
+            while p_ is not None and p_ is not fn:
+                if isinstance(p_, ast.Try) and p_.finalbody and any(y is x for b in p_.body for x in ast.walk(b)):
+                    in_try = True
+                if isinstance(p_, ast.With) and any(y is x for b in p_.body for x in ast.walk(b)):
+                    in_try = True       # an inner `with` restores on exit
+                p_ = repo.parent(p_)
+            blk = None
+            for f_ in ('body', 'orelse', 'finalbody'):
+                b_ = getattr(par, f_, None)
+                if isinstance(b_, list) and any(s is y for s in b_):
+                    blk = b_
+            after = blk[blk.index(y) + 1:] if blk else []
+            if after and not in_try:
+                bad = (y, after[0])
+        ctx.inst(rule, fid, 'context manager, %d yield(s)' % len(ys), bad is None,
+                 'clean-up runs on every exit' if bad is None else
+                 '`%s` after the yield is skipped when the block raises: what the manager changed before the yield (a table entry, the cwd) stays changed for every later call in '
+                 'the process' % repo.norm(bad[1])[:70], bad[0] if bad else fn)
+    if n == 0:
+        ctx.inst(rule, 'nbdime', 'no context manager defined', True, 'nothing to restore', None, nontrivial=False)
+
+
+@extra('C01', 'R01.23', 'a context manager that changes process-wide state undoes the change in a `finally` (C12 R12.17)', 1)
+def r01_23(ctx, rule):
+    r12_17(ctx, rule)
+
+
+@extra('C14', 'R14.21', 'in the output renderer a field that is printed (or skipped) under an option is named LITERALLY in the exclude set of the catch-all printer: an exclude set '
+       'derived from the list of keys being printed loses the field exactly when the option removes it from that list, and the catch-all prints it', 1)
+def r14_21(ctx, rule):
+    from ..util import local_defs
+    repo = ctx.repo
+    fid = 'nbdime.prettyprint:pretty_print_output'
+    fn = repo.func(fid)
+    defs = local_defs(fn)
+    calls = [c for c in calls_in(fn, nested=False) if dotted(c.func) == 'pretty_print_dict' and len(c.args) >= 2]
+    if not calls:
+        raise AnalysisError('pretty_print_output: catch-all pretty_print_dict call not found')
+    ex = calls[-1].args[1]
+
+    def literal_members(e, seen=()):
+        out = set()
+        if isinstance(e, ast.Set):
+            out |= {const_val(x) for x in e.elts if isinstance(const_val(x), str)}
+        elif isinstance(e, ast.BinOp) and isinstance(e.op, ast.BitOr):
+            out |= literal_members(e.left, seen) | literal_members(e.right, seen)
+        elif isinstance(e, ast.Name) and e.id not in seen:
+            for v, k, st in defs.get(e.id, []):
+                out |= literal_members(v, seen + (e.id,))
+        return out
+
+    def derived_from_mutable(e, seen=()):
+        """names of lists the set is computed from that are changed in place (remove/pop/del) in this function"""
+        out = set()
+        for x in ast.walk(e):
+            if isinstance(x, ast.Name) and x.id not in seen:
+                if any(isinstance(c, ast.Call) and isinstance(c.func, ast.Attribute) and dotted(c.func.value) == x.id and c.func.attr in ('remove', 'pop', 'clear', 'discard')
+                       for c in ast.walk(fn)):
+                    out.add(x.id)
+                for v, k, st in defs.get(x.id, []):
+                    out |= derived_from_mutable(v, seen + (x.id,))
+        return out
+    lits = literal_members(ex)
+    mut = derived_from_mutable(ex)
+    gated = ['execution_count', 'metadata']
+    for f in gated:
+        ok = f in lits
+        if f == 'execution_count' and not ok:
+            # acceptable when it comes from a key collection that is never shrunk
+            ok = not mut
+        ctx.inst(rule, fid, 'field %r: %s' % (f, 'literal member of the exclude set' if f in lits else 'only through %s' % (sorted(mut) or 'a fixed key collection')), ok,
+                 'the catch-all never prints it' if ok else
+                 '%r reaches the exclude set only through %s, which is shrunk when the option is off: with details ignored the catch-all printer then shows `execution_count` of '
+                 'every inserted or deleted execute_result' % (f, sorted(mut)), calls[-1])
